@@ -320,6 +320,10 @@ End Spec.
    the slab just above / just below the cut (all in the same unit).
    band: the low side is within 1% of half the weight
      - i64 weights: plus one unit (the thresholds are truncated to integers);
+       for totals of 2^46 and more the f64 rounding of `total as f64 / 2.0 *
+       fl(1 -+ TOLERANCE)` exceeds 1/200 unit (up to ~2^9 units at 2^62) and
+       the literal "1% + 1 unit" is FALSE of the code (Properties/C10.v,
+       C10_strict_band_refuted); what holds there is 1%*(1 + 2^-40) + 1 unit;
      - f64 weights: NO unit; the relative allowance 2^-e (e = 40 for exact
        dyadic weights) only covers the rounding of the two f64 products
        ideal * fl(1 -+ TOLERANCE) the code itself compares with
@@ -330,7 +334,12 @@ Definition band_rel (e : Z) (tot wl : Z) : Prop :=
   (2 ^ e * (100 * Z.abs (2 * wl - tot)) <= (2 ^ e + 1) * tot)%Z.
 Definition adjacent (tot wl sr sl : Z) : Prop :=
   ((2 * wl <= tot <= 2 * (wl + sr)) \/ (2 * (wl - sl) <= tot <= 2 * wl))%Z.
+Definition band_unit_rel (e : Z) (tot wl : Z) : Prop :=
+  (2 ^ e * (100 * Z.abs (2 * wl - tot)) <= (2 ^ e + 1) * tot + 2 ^ e * 200)%Z.
+Definition band_i64 (tot wl : Z) : Prop :=
+  if (tot <? 2 ^ 46)%Z then band_unit tot wl else band_unit_rel 40 tot wl.
 Definition bal_unit (tot wl sr sl : Z) : Prop := band_unit tot wl \/ adjacent tot wl sr sl.
+Definition bal_i64 (tot wl sr sl : Z) : Prop := band_i64 tot wl \/ adjacent tot wl sr sl.
 Definition bal_rel (e : Z) (tot wl sr sl : Z) : Prop := band_rel e tot wl \/ adjacent tot wl sr sl.
 
 Definition band_unit_b (tot wl : Z) : bool := (100 * Z.abs (2 * wl - tot) <=? tot + 200)%Z.
@@ -338,14 +347,19 @@ Definition band_rel_b (e : Z) (tot wl : Z) : bool :=
   (2 ^ e * (100 * Z.abs (2 * wl - tot)) <=? (2 ^ e + 1) * tot)%Z.
 Definition adjacent_b (tot wl sr sl : Z) : bool :=
   (((2 * wl <=? tot) && (tot <=? 2 * (wl + sr))) || ((2 * (wl - sl) <=? tot) && (tot <=? 2 * wl)))%Z.
+Definition band_unit_rel_b (e : Z) (tot wl : Z) : bool :=
+  (2 ^ e * (100 * Z.abs (2 * wl - tot)) <=? (2 ^ e + 1) * tot + 2 ^ e * 200)%Z.
+Definition band_i64_b (tot wl : Z) : bool :=
+  if (tot <? 2 ^ 46)%Z then band_unit_b tot wl else band_unit_rel_b 40 tot wl.
 Definition bal_unit_b (tot wl sr sl : Z) : bool := band_unit_b tot wl || adjacent_b tot wl sr sl.
+Definition bal_i64_b (tot wl sr sl : Z) : bool := band_i64_b tot wl || adjacent_b tot wl sr sl.
 Definition bal_rel_b (e : Z) (tot wl sr sl : Z) : bool := band_rel_b e tot wl || adjacent_b tot wl sr sl.
 
 (* the clause for a weight type *)
 Definition bal_prop (fw : wty) : Z -> Z -> Z -> Z -> Prop :=
-  match fw with I64 => bal_unit | F64 _ => bal_rel 40 end.
+  match fw with I64 => bal_i64 | F64 _ => bal_rel 40 end.
 Definition bal_prop_b (fw : wty) : Z -> Z -> Z -> Z -> bool :=
-  match fw with I64 => bal_unit_b | F64 _ => bal_rel_b 40 end.
+  match fw with I64 => bal_i64_b | F64 _ => bal_rel_b 40 end.
 
 (* The statement of C10 about an output array [ids] of Grid::rcb. *)
 Definition C10_spec (bal : Z -> Z -> Z -> Z -> Prop) (s : nat) (ds : list nat) (ws : list Z)
